@@ -21,6 +21,10 @@ size_t nondet_size_t(void);
 static inline T vp_integrand_call(const struct mc_point *point)
 {
   T x = nondet_T();
+#ifdef VP_MC_PROTOCOL
+  __CPROVER_assert(vp_phase == 1, "C17.order: the integrand runs after the coordinates were computed");
+  vp_phase = 2;
+#endif
   vp_invocations = vp_invocations + 1;
   vp_last_f = x;
   return x;
@@ -75,5 +79,47 @@ static inline T vp_generate_canonical(struct vp_rng *g)
   g->pos = g->pos + 1;
   vp_last_u = u;
   return u;
+}
+#endif
+
+/* ---- the user's channel map (multi-channel) -------------------------------------------------------
+ * map(channel, random_numbers, coordinates, enabled_channels, densities, action): user code.  It may write the
+ * coordinate and density buffers and returns any value (the jacobian for calculate_densities).  Ghost log of the
+ * protocol: number of calls per action and the arguments of the last call. */
+#define VP_ENUM_calculate_coordinates 0
+#define VP_ENUM_calculate_densities 1
+extern size_t vp_map_calls, vp_coord_calls, vp_dens_calls;
+extern int vp_map_action;
+extern size_t vp_map_channel;
+extern const void *vp_map_rn, *vp_map_coords, *vp_map_enabled, *vp_map_dens;
+extern T vp_map_ret;
+/* per-point protocol automaton: 0 idle -> 1 map(coordinates) -> 2 integrand running/ran -> 3 map(densities) */
+extern int vp_phase;
+extern size_t vp_c_channel; extern const void *vp_c_rn, *vp_c_coords, *vp_c_enabled, *vp_c_dens;
+#ifndef VP_NATIVE
+static inline T vp_map_call(size_t channel, const vec_T *rn, vec_T *coords, const vec_sz *enabled, vec_T *dens, int action)
+{
+  T x = nondet_T();
+  vp_map_calls = vp_map_calls + 1;
+  if (action == VP_ENUM_calculate_coordinates) vp_coord_calls = vp_coord_calls + 1; else vp_dens_calls = vp_dens_calls + 1;
+#ifdef VP_MC_PROTOCOL
+  if (action == VP_ENUM_calculate_coordinates)
+  {
+    __CPROVER_assert(vp_phase == 0, "C17.order: the map is asked for coordinates first, once per point");
+    vp_phase = 1;
+    vp_c_channel = channel; vp_c_rn = rn; vp_c_coords = coords; vp_c_enabled = enabled; vp_c_dens = dens;
+  }
+  else
+  {
+    __CPROVER_assert(vp_phase == 2, "C17.order: the map is asked for densities only after the integrand started, at most once");
+    vp_phase = 3;
+  }
+#endif
+  vp_map_action = action; vp_map_channel = channel;
+  vp_map_rn = rn; vp_map_coords = coords; vp_map_enabled = enabled; vp_map_dens = dens;
+  __CPROVER_havoc_object(coords->p);
+  __CPROVER_havoc_object(dens->p);
+  vp_map_ret = x;
+  return x;
 }
 #endif
